@@ -18,7 +18,7 @@ ID = "C06"
 LEVEL = "exploration"
 
 CANON = {"kind": "table", "polar": False, "f": "frequency", "a": "real", "b": "imaginary", "case": "lower", "neg_a": "", "neg_b": "",
-         "unit": "none", "order": "f-first", "sep": ",", "dec": ".", "rows": "desc", "sweeps": 1, "n": 3, "seed": 1}
+         "unit": "none", "order": "f-first", "sep": ",", "dec": ".", "rows": "desc", "sweeps": 1, "n": 3, "seed": 1, "window": "same"}
 CANON_POLAR = dict(CANON, polar=True, a="magnitude", b="phase")
 _ST: Dict[str, Any] = {}
 
@@ -38,6 +38,14 @@ def make_sweeps(case: dict) -> List[List[Tuple[float, complex]]]:
     out = []
     for k in range(int(case["sweeps"])):
         sw = F.spectrum(int(case["n"]), int(case["seed"]) * 10 + k)
+        # consecutive sweeps over different frequency windows: "away" from the first sweep's start in the direction opposite to the row
+        # order (1e6 per sweep), "toward" it (1e3 per sweep, overlapping windows); the sweep boundary stays a reversal of direction
+        win = case.get("window", "same")
+        if win != "same" and k:
+            factor = {"away": 1e6, "toward": 1e-3}[win]
+            if case["rows"] == "asc":
+                factor = 1.0 / factor
+            sw = [(f * factor ** k, z) for f, z in sw]
         if case["rows"] == "asc":
             sw = list(reversed(sw))
         out.append(sw)
@@ -166,13 +174,13 @@ def responsible_features(case: dict, kind: str, st) -> Tuple[dict, List[str]]:
     """Greedy reduction towards the canonical table while the same kind of failure persists."""
     if case["kind"] != "table":
         c = dict(case)
-        for k, v in (("n", 3), ("rows", "desc"), ("sweeps", 1)):
-            if c.get(k) != v and not (k == "sweeps" and c["layout"] != "mpt"):
+        for k, v in (("n", 3), ("rows", "desc"), ("window", "same"), ("sweeps", 1)):
+            if c.get(k, v) != v and not (k == "sweeps" and c["layout"] != "mpt"):
                 c2 = dict(c)
                 c2[k] = v
                 if outcome(c2, st)[0] == kind:
                     c = c2
-        feats = [f"layout={c['layout']}"] + [f"{k}={c[k]}" for k, v in (("n", 3), ("rows", "desc"), ("sweeps", 1)) if c.get(k) != v]
+        feats = [f"layout={c['layout']}"] + [f"{k}={c[k]}" for k, v in (("n", 3), ("rows", "desc"), ("window", "same"), ("sweeps", 1)) if c.get(k, v) != v]
         return c, feats
     base = CANON_POLAR if case["polar"] else CANON
     c = dict(case)
@@ -279,10 +287,11 @@ def cases(thorough: bool) -> List[dict]:
                 F.NEG_MARKERS if not polar else [""], F.NEG_MARKERS, units, orders, ("desc", "asc"), (1, 2, 3), (1, 2, 3, 7), sepdec):
             if n == 1 and sweeps > 1:
                 continue  # consecutive one-point sweeps are not a sweep structure
-            k += 1
-            out.append(dict(base, neg_a=neg_a, neg_b=neg_b, unit=unit, order=order, rows=rows, sweeps=sweeps, n=n, sep=sep, dec=dec, seed=k % 50,
-                            a=("z'" if not polar else "|z|"), b=("z''" if not polar else "phz"), f="freq",
-                            ext=".txt" if k % 4 == 0 else ".csv"))
+            for window in (("same", "away", "toward") if sweeps > 1 and (thorough or (neg_a == "" and unit == "none")) else ("same",)):
+                k += 1
+                out.append(dict(base, neg_a=neg_a, neg_b=neg_b, unit=unit, order=order, rows=rows, sweeps=sweeps, n=n, sep=sep, dec=dec, seed=k % 50,
+                                a=("z'" if not polar else "|z|"), b=("z''" if not polar else "phz"), f="freq",
+                                ext=".txt" if k % 4 == 0 else ".csv", window=window))
     # (3) the table printed by the CLI is itself such a file
     for n, sweeps, rows, (sep, dec) in itertools.product((1, 2, 7), (1, 2), ("desc", "asc"), [(",", "."), ("\t", ","), (";", ",")]):
         if n == 1 and sweeps > 1:
@@ -296,7 +305,8 @@ def cases(thorough: bool) -> List[dict]:
                     if n == 1 and sweeps > 1:
                         continue
                     for seed in ((1, 2, 3) if thorough else (1,)):
-                        out.append({"kind": "instrument", "layout": lay, "n": n, "rows": rows, "sweeps": sweeps, "seed": seed})
+                        for window in (("same", "away", "toward") if sweeps > 1 else ("same",)):
+                            out.append({"kind": "instrument", "layout": lay, "n": n, "rows": rows, "sweeps": sweeps, "seed": seed, "window": window})
     return out
 
 
@@ -305,7 +315,8 @@ def run(ctx) -> None:
     st = setup()
     ctx.rule = ("delimited tables: every (frequency alias x real alias x imaginary alias) and (frequency x modulus x phase alias) triple x "
                 "letter case x separator/decimal-mark combination, with negation markers (none, '-', unicode minus), unit suffix, column order "
-                "(f first / f last / unrelated extra column), row order, 1-3 sweeps and 1/2/3/7 points rotating in quick and crossed in "
+                "(f first / f last / unrelated extra column), row order, 1-3 sweeps (over the same window, or each sweep shifted away from / toward the "
+                "first sweep's start) and 1/2/3/7 points rotating in quick and crossed in "
                 "thorough; plus the full product of those structural switches with fixed aliases (cartesian and polar, .csv and .txt); the CSV "
                 "table printed by `pyimpspec parse` fed back to parse_data; instrument layouts .mpt (1-3 sweeps), .i2b, .P00, .dfr, .z, .dta "
                 "(decimal commas; with and without drift-corrected columns) x 1/2/3/7 points x row order. Excluded by the documented detection "
